@@ -69,6 +69,22 @@ var c01Check = register("C01", "c01.encode", func(c *encCase) error {
 	if again, err2, p2 := implEncode(buf, implLang[l]); p2 != nil || err2 != nil || again != ref.Encode(buf, l) {
 		return failf(sig+" reused-buffer", "after NewMnemonicByEntropy(%x, %s) the caller refilled the same buffer with %x and called again: got (%q, %v, panic=%v), BIP39 says %q", []byte(c.Entropy), l, buf, again, err2, p2, ref.Encode(buf, l))
 	}
+	// the entropy as a window of a larger buffer the caller still uses (cap > len): the call must
+	// leave the rest of the buffer alone, or the caller's next window no longer holds its entropy
+	{
+		n := len(c.Entropy)
+		slab := make([]byte, 2*n+8)
+		for i := range slab {
+			slab[i] = c.Entropy[i%n] ^ byte(i/n*0x6d)
+		}
+		pristine := append([]byte(nil), slab...)
+		for w := 0; w < 2; w++ {
+			win := slab[w*n : (w+1)*n]
+			if s, err3, p3 := implEncode(win, implLang[l]); p3 != nil || err3 != nil || s != ref.Encode(pristine[w*n:(w+1)*n], l) {
+				return failf(sig+" window", "NewMnemonicByEntropy on window %d (%x) of a larger buffer, after the call on window %d: got (%q, %v, panic=%v), BIP39 says %q; the buffer was %x and is now %x", w, pristine[w*n:(w+1)*n], w-1, s, err3, p3, ref.Encode(pristine[w*n:(w+1)*n], l), pristine, slab)
+			}
+		}
+	}
 	// the structural reading of the property's last sentence, independent of the lists
 	sep := l.Sep()
 	toks := strings.Split(got, sep)
@@ -221,6 +237,57 @@ func TestC01_AfterValidation(t *testing.T) {
 				cov.NonTrivial("enc-after-validation", []byte(c.Lang), c.Entropy)
 				judge(t, "c01.encode", c01Check, c)
 			}
+		}
+	}
+}
+
+// c01.history: the encode check directly after earlier calls in the same goroutine (rejected
+// sentences, generation from a source that fails part-way, other languages, ...).
+var c01HistCheck = historyCheck(c01Check)
+
+func TestC01_History(t *testing.T) {
+	cov.Rule(c01Rule + " || each rapid case again directly after 1..5 earlier calls in the same goroutine (rejected and accepted validations, the sibling language, NewMnemonic from a source that ends part-way, wrong sizes, unsupported languages, seeds)")
+	k := 0
+	rapidCheck(t, func(rt *rapid.T) {
+		l := gen.Lang().Draw(rt, "lang")
+		e := gen.Entropy().Draw(rt, "ent")
+		h := &hist[encCase]{History: drawHistory(rt, l), Case: encCase{Lang: l.Name(), Entropy: e.Bytes, Shape: e.Shape}}
+		c01Record(&h.Case, nil, nil)
+		recordHistory(h.History)
+		if k++; k%499 == 1 {
+			cov.Sample("c01.encode@history", h)
+		}
+		judge(rt, "c01.encode@history", c01HistCheck, h)
+	})
+}
+
+// c01.cold: encoding in a freshly started process, for every language x every way of touching
+// the language first (first-use order of the lazily built tables).
+var c01ColdCheck = register("C01", "c01.cold", coldCheck("C01"))
+
+func TestC01_Cold(t *testing.T) {
+	cov.Rule(c01Rule + " || every language x 13 first-use patterns (what touched the language first in a freshly started process), then encodes of all five sizes")
+	item := 0
+	for _, l := range allLangs() {
+		for k, first := range coldFirstUse(l, 0) {
+			item++
+			if !mine(item) {
+				continue
+			}
+			var probe []op
+			for si, size := range ref.Sizes {
+				e := tableEntropies(size)[(int(l)*97+k*13+si)%2048].Bytes
+				probe = append(probe, op{Kind: "encode", Lang: int64(implLang[l]), Entropy: e, ExtraCap: si % 2 * 8})
+			}
+			c := &coldCase{History: first, Probe: probe}
+			cov.Eval(len(probe))
+			cov.Class("cold-start")
+			cov.ClassN("first-use-pattern", k)
+			cov.NonTrivial("c01.cold", []byte(l.Name()), []byte{byte(k)})
+			if item == 3 {
+				cov.Sample("c01.cold", c)
+			}
+			judge(t, "c01.cold", c01ColdCheck, c)
 		}
 	}
 }
